@@ -11,7 +11,7 @@ use watchexec::{error::RuntimeError, filter::Filterer, sources::fs::Watcher as K
 use watchexec_events::{Event, Priority};
 
 #[derive(Debug, Default)]
-struct Counters { accepted: AtomicUsize, rejected: AtomicUsize, errored: AtomicUsize }
+struct Counters { accepted: AtomicUsize, rejected: AtomicUsize, errored: AtomicUsize, acc_log: Mutex<Vec<String>> }
 #[derive(Debug)]
 struct Scripted(Arc<Counters>);
 impl Filterer for Scripted {
@@ -19,7 +19,7 @@ impl Filterer for Scripted {
         let names: Vec<String> = ev.paths().map(|(p, _)| p.to_string_lossy().to_string()).collect();
         if names.iter().any(|n| n.contains("boom")) { self.0.errored.fetch_add(1, SeqCst); return Err(RuntimeError::External("boom".into())); }
         if names.iter().any(|n| n.contains("skip")) { self.0.rejected.fetch_add(1, SeqCst); return Ok(false); }
-        self.0.accepted.fetch_add(1, SeqCst); Ok(true)
+        self.0.acc_log.lock().unwrap().push(format!("{:?}", ev.tags)); self.0.accepted.fetch_add(1, SeqCst); Ok(true)
     }
 }
 
@@ -41,10 +41,11 @@ async fn run_case(id: String, kind: String, mode: String, ops: Vec<String>) -> S
     wx.config.filterer(Scripted(counters.clone()));
     wx.config.file_watcher(if kind == "P" { Kind::Poll(Duration::from_millis(40)) } else { Kind::Native });
     wx.config.on_error({ let n = nerr.clone(); move |_h| { n.fetch_add(1, SeqCst); } });
-    wx.config.on_action({ let (d, root, nev, nempty) = (delivered.clone(), root.clone(), nev.clone(), nempty.clone()); move |action| {
+    let dlog: Arc<Mutex<Vec<String>>> = Default::default();
+    wx.config.on_action({ let (d, root, nev, nempty, dlog) = (delivered.clone(), root.clone(), nev.clone(), nempty.clone(), dlog.clone()); move |action| {
         if action.events.is_empty() { nempty.fetch_add(1, SeqCst); }
         if slow { std::thread::sleep(Duration::from_millis(60)); }
-        for e in action.events.iter() { nev.fetch_add(1, SeqCst); d.lock().unwrap().push(e.paths().map(|(p, _)| rel(&root, p)).collect()); }
+        for e in action.events.iter() { nev.fetch_add(1, SeqCst); dlog.lock().unwrap().push(format!("{:?}", e.tags)); d.lock().unwrap().push(e.paths().map(|(p, _)| rel(&root, p)).collect()); }
         action } });
     let paths: Vec<WatchedPath> = match mode.as_str() {
         "R" | "Q" => vec![WatchedPath::recursive(root.clone())],
@@ -77,6 +78,21 @@ async fn run_case(id: String, kind: String, mode: String, ops: Vec<String>) -> S
         names.sort(); names.dedup();
         segs.push(format!("{}{}", if ok { "" } else { "!" }, names.join(",")));
     }
+    // what the filter accepted is handed over once its window is over and the handler is free: give that up to 30 s (a loaded machine);
+    // an event that was lost never arrives, a duplicated one overshoots
+    // (and a late event may still be on its way: the counters must have stood still for 100 ms)
+    let mut last = (usize::MAX, usize::MAX);
+    for _ in 0..100 {
+        let cur = (nev.load(SeqCst), counters.accepted.load(SeqCst));
+        if cur.0 >= cur.1 && cur == last { break; }
+        last = cur; tokio::time::sleep(Duration::from_millis(300)).await;
+    }
+    if std::env::var("WX_DEBUG_LOST").is_ok() && nev.load(SeqCst) != counters.accepted.load(SeqCst) {
+        let mut a = counters.acc_log.lock().unwrap().clone(); let dl = dlog.lock().unwrap().clone();
+        for x in &dl { if let Some(i) = a.iter().position(|y| y == x) { a.remove(i); } }
+        let line = format!("LOST {id} n={}/{}: {a:?}\nACC {:?}\nDLV {:?}\n", nev.load(SeqCst), counters.accepted.load(SeqCst), counters.acc_log.lock().unwrap(), dl);
+        if let Ok(f) = std::env::var("WX_DEBUG_LOST") { use std::io::Write as _; if let Ok(mut h) = std::fs::OpenOptions::new().create(true).append(true).open(f) { let _ = h.write_all(line.as_bytes()); } }
+    }
     let st = if main.is_finished() { "ended" } else { "running" };
     main.abort();
     let _ = std::fs::remove_dir_all(&root);
@@ -89,7 +105,7 @@ fn main() {
         let line = line.unwrap(); let f: Vec<String> = line.split(' ').map(|s| s.to_string()).collect();
         let ops: Vec<String> = f[3].split(';').map(|s| s.to_string()).collect();
         let rt = tokio::runtime::Builder::new_multi_thread().worker_threads(3).enable_all().build().unwrap();
-        let r = rt.block_on(async { match tokio::time::timeout(Duration::from_secs(20), run_case(f[0].clone(), f[1].clone(), f[2].clone(), ops)).await { Ok(r) => r, Err(_) => "HUNG".into() } });
+        let r = rt.block_on(async { match tokio::time::timeout(Duration::from_secs(90), run_case(f[0].clone(), f[1].clone(), f[2].clone(), ops)).await { Ok(r) => r, Err(_) => "HUNG".into() } });
         rt.shutdown_background();
         writeln!(o, "{} {}", f[0], r).unwrap(); o.flush().unwrap();
     }
